@@ -121,8 +121,12 @@ def limits_of(obj, sc, G, rid):
                 continue
             hrs = getattr(lim, "_verif_hours", None)
             val_sec = int(round(float(frac(hrs) * 3600))) if hrs is not None else lim.value * G
+            try:        # informational only; the counter store is an implementation detail that may change shape
+                periods = len(lim._scoreboard)
+            except Exception:
+                periods = 0
             out.append({"kind": kind, "val": int(lim.value), "valSec": val_sec,
-                        "res": rid(lim.resource) if lim.resource else 0, "periods": len(lim._scoreboard)})
+                        "res": rid(lim.resource) if lim.resource else 0, "periods": periods})
     return out
 
 
